@@ -162,7 +162,7 @@ PROPS = {
             "decode contract is completeness on the encoder's image + exact consumption + image equality (w.bytes()==v.bytes()); value equality follows from injectivity of the image, proved for the primitive leaves (lemma_inj_*) and structural for the constructors",
             "c12_interned: WiredInterned<T> (the framing of interned handles) is an ordinary Wire type verified in both directions; `Encode for Interned<T>` is verified against a session-aware contract (SessionEncode, header-sub): source form iff (T::STABLE_TYPE_ID, content hash) was not yet in the session's seen-set, reference form (tag 1 + hash) otherwise. Stand-ins: Session::get_mut_or_default (typed slot borrow), Interner::hash_128 (a function of the value), Plugin::get (ASSUMED to hold the interner), Compact128 codec (derive shape verified in c12_derive), FxHashSet, obeys_key_model::<InternedID>. NOT decided deductively: that the decoder's interner still holds every referenced value when `get_from_hash::<T>` runs (shared interner behind &Plugin, Weak handles, inner encodes may touch the session) and the four Decode impls for Interned<..> -- covered by the bounded run only",
             "strings (rule R14): Encoder::emit_str / Decoder::read_str, Encode for str/String, Decode for String/Box<str>/Rc<str>/Arc<str> are under contract with image = LEB128 byte count + utf8(view). Trusted string model: utf8 is an uninterpreted injective function of the character sequence; str::as_bytes/str::len return utf8(view) and its length; String::from_utf8 accepts exactly the utf8 images; a VALUE of a string type holds at most isize::MAX bytes; into_boxed_str / Rc<str>::from / Arc<str>::from keep the characters",
-            "VecDeque: Decode under contract (vstd model of VecDeque); Encode for VecDeque iterates &VecDeque, for which vstd has no iterator model: bounded run only",
+            "VecDeque: Encode and Decode under contract (vstd model of VecDeque); rule R16: `for item in self` (self: &VecDeque) is read as `for item in self.iter()` -- std's `IntoIterator for &VecDeque` is `iter()`; vstd models only the latter",
             "not under contract: Path/PathBuf/OsStr, LinkedList/BTreeMap/BTreeSet/HashMap/HashSet/DashMap/DashSet (iterator models), Cow, RefCell, atomics, [T;N]::decode (MaybeUninit), SmallVec, BitVec",
             "derive macros: verified on the fixture types of fixtures/derive_fix (named/tuple/unit/generic structs, enums with unit/tuple/struct variants, generic enum, skip on first/middle/last positions), expanded on every run by the real proc-macro crate; other shapes are covered only in so far as the macro treats them uniformly",
             "rule R13: alpha-renaming of the derive's method type parameter (__E/__D -> E/D)",
